@@ -66,8 +66,18 @@ def worker(seed):
     rng = random.Random(seed)
     fr = gen_frame(rng)
     df = pd.DataFrame(fr["rows"])
+    # the index the callers hand over: the models pass pd.concat([reporting, nonreporting]) whose parts keep their own 0..n-1 labels (so labels
+    # repeat); other callers pass a filtered or re-ordered frame (labels neither contiguous nor sorted)
+    style = seed % 3
+    if style == 1:
+        df = pd.concat([df.iloc[: fr["n_rep"]].reset_index(drop=True), df.iloc[fr["n_rep"]:].reset_index(drop=True)], axis=0)
+    elif style == 2:
+        lab = list(range(3, 3 + 2 * len(df), 2))
+        random.Random(seed + 1).shuffle(lab)
+        df.index = lab
     fe_arg = fr["fes"] if fr["as_list"] else {k: fr["fe_param"][k] for k in fr["fes"]}
-    out = {"seed": seed, "frame": {k: fr[k] for k in ("fes", "fe_param", "as_list", "feats", "sep", "n_rep")}, "n": len(fr["rows"])}
+    out = {"seed": seed, "frame": dict({k: fr[k] for k in ("fes", "fe_param", "as_list", "feats", "sep", "n_rep")}, index_style=["unique", "repeated (concat)", "shuffled labels"][seed % 3]),
+           "n": len(fr["rows"])}
     try:
         f = Featurizer(list(fr["feats"]), fe_arg, states_for_separate_model=list(fr["sep"]))
         x_all = f.prepare_data(df, center_features=True, scale_features=False, add_intercept=True)
